@@ -4,6 +4,7 @@ CONSTANTS
   MaxEpoch = 2
   MaxSb = 3
   MaxPeer = 3
+  DropsLateReply = FALSE
   CtlCompletesData = FALSE
 INVARIANT NeverNilNil
 INVARIANT OwnReply
@@ -12,5 +13,6 @@ INVARIANT SendMatchesWire
 INVARIANT NoStaleFrame
 INVARIANT UniqueSb
 INVARIANT RegistryClean
+INVARIANT NoReplyLost
 PROPERTY NoDataWhenNotSelected
 CHECK_DEADLOCK FALSE
